@@ -327,6 +327,14 @@ class SpecEval:
                 c = self.prog_const(e[2], full)
                 if c is not None:
                     return c
+                g = full + '.' + e[2]
+                if g in self.prog.globals and self.st is not None:
+                    # a package-level variable of another package
+                    ets = self.prog.globals[g]['elem']
+                    hn, hs = self.vc.global_heap(g, ets)
+                    v = V(self.st.get(hn, hs), hs, ets)
+                    self.vc.range_assume(v)
+                    return v
         b = self.eval(e[1])
         if self.st is None:
             self.err('heap access %r not allowed in a rec function body (pass values instead)' % (e,))
@@ -661,6 +669,14 @@ class SpecEval:
         if self.prog.under(ets)['k'] == 'struct':
             self.err('deref of a struct pointer: use field access')
         return self.vc.load(self.st, Loc('cell', ets, ref=x.term))
+
+    def b_initrun(self, args):
+        """initrun(): this package's initialiser has already run (go/ssa's init$guard)"""
+        g = self.pkg + '.init$guard'
+        if g not in self.prog.globals or self.st is None:
+            self.err('initrun(): no init guard for package ' + self.pkg)
+        hn, hs = self.vc.global_heap(g, self.prog.globals[g]['elem'])
+        return V(self.st.get(hn, hs), 'Bool', 'bool')
 
     def b_ffloor(self, args):
         x = self.eval(args[0])
